@@ -189,20 +189,22 @@ def isNullIV : IV → Bool
   | .null | .absentVar => true
   | _ => false
 
+/-- the value the document provides for a field: a variable without runtime value is as if the field was not
+    written (F02a: the code takes it as an explicit null) -/
+def providedOf (dv : Devs) : Option IV → Option IV
+  | some .absentVar => if dv.absentVarNull then some .null else none
+  | o => o
+
+/-- the provided value, else the field's default -/
+def useValOf (fd : FieldDef) : Option IV → Option IV
+  | some v => some v
+  | none => fd.dflt.map (ivOfLit [] litDepth)
+
 /-- one field of an input object: the provided value, else the default, else omitted / an error -/
 def objField (dv : Devs) (rec : Ty → IV → Path → Except SErr CV) (fs : List (String × IV)) (path : Path)
     (fd : FieldDef) : Except SErr (Option (String × CV)) :=
   let p := path ++ [fd.name]
-  let provided : Option IV :=
-    match lookup fs fd.name with
-    -- variable without value: as if the field was not written
-    | some .absentVar => if dv.absentVarNull then some .null else none
-    | o => o
-  let useVal : Option IV :=
-    match provided with
-    | some v => some v
-    | none => fd.dflt.map (ivOfLit [] litDepth)
-  match useVal with
+  match useValOf fd (providedOf dv (lookup fs fd.name)) with
   | none => if fd.ty.nn then .error (SErr.at p) else .ok none
   | some v =>
     match rec fd.ty v p with
